@@ -92,6 +92,8 @@ def strategy(tier):
              "hint": draw(st.booleans()), "sorter": draw(st.sampled_from(["default", "desc", "abs_target"])),
              # ARPACK shift-invert variant (documented `mode` keyword; used for real symmetric pencils with a shift)
              "amode": draw(st.sampled_from(["normal", "normal", "buckling", "cayley"])),
+             # overall scale of the (real) stiffness matrix: eigenvalues and shift of order 1e-9 ... 1e6
+             "kscale": draw(st.sampled_from([1.0, 1.0, 1.0, 1e-9, 1e-12, 1e6])),
              "payload_seed": draw(SEED)}
         if c["phys"] == "elast":
             # free-free elastic pencils have a 3/6-fold eigenvalue (rigid-body modes) on which ARPACK can fail to
@@ -576,7 +578,14 @@ def _check_sparse(case):
                                     f"sigma={sigma_arg} nmodes={nm} bc={case['bc']} kbc={kbc} mbc={mbc} "
                                     f"sorter={case['sorter']} mode={case.get('amode')}"))
 
+    ks = 1.0 if cplx else float(case.get("kscale", 1.0))
     K = b["assemble_K"](bc, kbc)
+    if ks != 1.0:
+        # everything above was chosen for the unscaled pencil; scale K, its eigenvalues and the shift together
+        K = (K * ks).asformat(K.format)
+        phys, pr_unit, top, sigma = phys * ks, pr_unit * ks, top * ks, sigma * ks
+        sigma_arg = None if sigma_arg is None else sigma_arg * ks
+        labels.append(f"kscale_{ks:g}")
     M = b["assemble_M"](bc, mbc) if gen else None
     if phase:
         import scipy.sparse as sps
